@@ -288,3 +288,38 @@ theorem poolStep_ti (T : TP) (p : Pool) (op : PoolOp) (h : TI T p)
     exact addBlock_ti T p b par h (hb b par rfl)
 
 end AgModel.Pool
+
+namespace AgModel.Pool
+open AgModel
+
+/-- `T'` is weaker than `T` (same parent function) -/
+structure TP.le (T T' : TP) : Prop where
+  par : T'.F.par = T.F.par
+  L : ∀ b, T.F.L b → T'.F.L b
+  N : ∀ b, T.F.N b → T'.F.N b
+  Fc : ∀ s, T.F.Fc s → T'.F.Fc s
+  CP : ∀ b, T.CP b → T'.CP b
+  SP : ∀ s, T.SP s → T'.SP s
+
+theorem readyP_mono {T T' : TP} (hl : T.le T') {w : Nat} {p : Nat × Nat} (h : ParentReady.ReadyP T.CP T.SP w p) :
+    ParentReady.ReadyP T'.CP T'.SP w p :=
+  ⟨h.1, hl.CP _ h.2.1, fun u a b => hl.SP _ (h.2.2 u a b)⟩
+
+theorem TI.mono {T T' : TP} {p : Pool} (h : TI T p) (hl : T.le T') : TI T' p := by
+  obtain ⟨hf, hp⟩ := h
+  refine ⟨⟨?_, ?_, ?_, ?_, ?_⟩, ⟨?_, ?_, ?_⟩⟩
+  · intro b q hb; rw [hl.par]; exact hf.parents b q hb
+  · intro s x hx; exact hl.L _ (hf.fin s x hx)
+  · intro s x hx; exact hl.L _ (hf.impl s x hx)
+  · intro s x hx; exact hl.N _ (hf.notar s x hx)
+  · intro s hx; exact hl.Fc _ (hf.pend s hx)
+  · intro s q hq; exact readyP_mono hl (hp.ready s q hq)
+  · intro s x hx; exact hl.CP _ (hp.nfs s x hx)
+  · intro s hx; exact hl.SP _ (hp.skip s hx)
+
+theorem ReadyEv.mono {T T' : TP} {ev : Event} (h : ReadyEv T ev) (hl : T.le T') : ReadyEv T' ev := by
+  cases ev with
+  | parentReady w a b => exact readyP_mono hl h
+  | _ => trivial
+
+end AgModel.Pool
